@@ -168,9 +168,15 @@ func vfRunPair(f []string) string {
 		switch {
 		case kind == 's' && len(a) == 4:
 			sid := n(a[2])
-			_ = e.ch.SendSession([]byte(a[1]), uint16(sid), vfAt(int64(n(a[3]))))
-			e.nsub++
-			obs = "S" + vfPkts(e.tried)
+			ns0, q0 := e.ch.ns, len(e.ch.queue)
+			err := e.ch.SendSession([]byte(a[1]), uint16(sid), vfAt(int64(n(a[3]))))
+			if err != nil && e.dead > 0 && e.ch.ns == ns0 && len(e.ch.queue) == q0 && len(e.tried) == 0 {
+				// refused by a channel that has declared dead: not accepted for sending
+				obs = "R"
+			} else {
+				e.nsub++
+				obs = "S" + vfPkts(e.tried)
+			}
 		case (kind == 'd' || kind == 'u') && len(a) == 3:
 			l := transit[x]
 			if len(l) == 0 {
